@@ -5,6 +5,8 @@ Domain   sealed trees including flat ones (no sub-directories); histories with o
          or -sf; files up to 2 MiB; then either no change or one mutation (append, in-place bit flip at any offset, rename, add file, add directory, remove file, remove
          subtree) at a generated depth, the root folder itself weighted 30 %; `verify -dh` on the top folder or on a
          nested history root.
+         Later additions: `-h <recorded format>`; sub-folders sealed on their own in another format before / after the
+         enclosing folder; trailing generations without directory hashes (-n, -sf); enumerated.
 Oracle   three regions decided by the harness's bookkeeping: tree never edited since the first seal and not mutated =>
          exit 0; tree mutated and therefore different from what every generation recorded (and at least one
          generation of the verified history carries directory hashes) => exit 12; anything else => only 'no
